@@ -41,6 +41,7 @@ pub fn decode_c04(u: &mut Unstructured) -> Result<CbCase> {
         } else {
             0
         },
+        classifier_first: u.arbitrary::<bool>()?,
     };
     let mut ops = vec![];
     while !u.is_empty() && ops.len() < 400 {
